@@ -1,0 +1,41 @@
+// Package ulidutils holds helpers for ULIDs whose order carries meaning.
+package ulidutils
+
+import (
+	"sync"
+
+	"github.com/oklog/ulid/v2"
+)
+
+var (
+	orderedMu   sync.Mutex
+	lastOrdered ulid.ULID
+)
+
+// MakeOrdered returns a ULID that is strictly greater than every ULID it has
+// returned before in this process.
+//
+// ulid.Make reads the clock before it takes the lock of its shared monotonic
+// entropy source, and that source restarts from fresh random bits whenever the
+// millisecond it is asked for differs from the one of the previous call. With
+// several goroutines creating ULIDs, two ids made one after the other by the
+// same goroutine within one millisecond can therefore compare in the wrong
+// order. Ids that serve as a queue position (ORDER BY id) must not do that.
+func MakeOrdered() ulid.ULID {
+	orderedMu.Lock()
+	defer orderedMu.Unlock()
+	id := ulid.Make()
+	if id.Compare(lastOrdered) <= 0 {
+		// Continue from the last id instead: add one to it as a 128-bit
+		// big-endian number (a carry out of the entropy moves the timestamp on).
+		id = lastOrdered
+		for i := len(id) - 1; i >= 0; i-- {
+			id[i]++
+			if id[i] != 0 {
+				break
+			}
+		}
+	}
+	lastOrdered = id
+	return id
+}
